@@ -146,6 +146,30 @@ def check_float_case(fb, rec, rnd, rep, stats, N):
 HELD = []
 
 
+def check_all_lengths(fb, rep, stats):
+    """every grid length (an implementation that works through the interior in blocks has a last block of every size)"""
+    for n, m in ((1, 1), (2, 1), (1, 2), (3, 2)):
+        mm = n // 2 + m
+        for N in range(2 * mm + 2, 71):
+            for gname, x in (('uniform', np.linspace(-1.0, 2.0, N)), ('graded', np.linspace(0.5, 2.0, N) ** 2)):
+                deg = 2
+                fx = 0.5 * x ** deg - x + 0.25
+                want = {1: x - 1.0, 2: np.ones(N), 3: np.zeros(N)}[n]
+                key = 'length/%s/N=%d/n=%d/m=%d' % (gname, N, n, m)
+                try:
+                    du = np.asarray(fb.fd_derivative(fx, x, n, m))
+                except Exception as ex:
+                    rep.violation('raises:' + key, dict(case=key), 'fd_derivative raised %r' % (ex,))
+                    continue
+                stats['float_calls'] += 1
+                tol = 1e-7 * (1.0 + np.abs(want)) * (N ** n)
+                if du.shape != (N,) or not (np.abs(du - want) <= tol).all():
+                    i = int(np.argmax(np.abs(du - want) - tol)) if du.shape == (N,) else -1
+                    rep.violation('length', dict(case=key, i=i, got=float(du[i]) if i >= 0 else None, want=float(want[i]) if i >= 0 else None),
+                                  '%s: fd_derivative[%d] = %r for a quadratic, exact %r' % (key, i, du[i] if i >= 0 else None, want[i] if i >= 0 else None))
+                    break
+
+
 def check_int_grids(fb, rep, stats):
     """a grid of integer dtype (np.arange, also descending) with float samples: same numbers as the same grid in floats, float result"""
     for N in (7, 11, 20):
@@ -181,6 +205,7 @@ def run(tier, rep):
     for rec in res.records:
         check_tlc_case(fb, rec, rep, stats)
     check_int_grids(fb, rep, stats)
+    check_all_lengths(fb, rep, stats)
     rnd = random.Random(seed)
     pool = [r for r in res.records if r['pat'] == 1 and r['dir'] == 1]
     rnd.shuffle(pool)
